@@ -971,6 +971,9 @@ def cached_script_view(
     if req.method != "GET":
         return HttpResponseNotAllowed(["GET"])
 
+    if script_type not in _CONTENT_TYPES:
+        return HttpResponseNotFound()
+
     comp_cls = comp_hash_mapping.get(comp_cls_hash)
     if comp_cls is None:
         return HttpResponseNotFound()
